@@ -1,7 +1,11 @@
 """C15 - results do not depend on where the PDU lies in memory: no access
 assumes more alignment than the declared types of its pointer's origin promise
 (rule over un-optimised IR of every library unit)."""
+import os
+
 from .. import rules
+from .. import build
+from .. import irparse
 from .. import fieldchecks as FC
 from ..ctx import load_spec
 from ..report import Result, Broken
@@ -71,6 +75,21 @@ def run(ctx, tier, res, tag=''):
         else:
             res.ok()
     res.count('of which through caller-supplied pointers' + tag, n_wire)
+    # address-to-value rule: the numeric value of a caller address must not reach anything the caller observes
+    found, st = rules.address_value_sites(mod, FACTS)
+    res.count('functions scanned for address-to-value flows' + tag, st['functions'])
+    res.count('pointer-to-integer conversions of caller addresses followed' + tag, st['ptrtoint'] + st['pointer slots read as integers'])
+    nth = {}
+    for (fname, ins, kind, what) in found:
+        loc = mod.loc(ins.dbg)
+        relf = FC.rel(loc[0]) if loc else '?'
+        lib = unit_lib.get(relf, 'custom' if '/custom/' in relf else 'core')
+        nth[(lib, kind)] = nth.get((lib, kind), 0) + 1
+        res.violation('addr:%s:%s#%d%s' % (lib, kind, nth[(lib, kind)], tag),
+                      '%s:%s %s: %s (the result then depends on where the PDU lies in memory)'
+                      % (relf, loc[1] if loc else '?', fname, what))
+    if not found:
+        res.ok()
     if len(sites) < floors['C15_min_access_sites']:
         raise Broken('only %d access sites found in the library IR (floor %d): the rule would pass vacuously'
                      % (len(sites), floors['C15_min_access_sites']))
@@ -88,7 +107,31 @@ def run(ctx, tier, res, tag=''):
     return res
 
 
+MUST_FLAG = ['fx_pad_from_address', 'fx_hash_of_pointer', 'fx_store_low_bits', 'fx_round_down', 'fx_pun', 'fx_index_from_helper']
+MUST_PASS = ['fx_guarded_fast_path', 'fx_pointer_difference', 'fx_round_trip', 'fx_local_address', 'fx_addr']
+
+
+def positive_control():
+    d = build.scratch()
+    src = os.path.join(os.path.dirname(os.path.dirname(os.path.dirname(os.path.abspath(__file__)))), 'fixtures', 'c15_positive.c')
+    bcs = build.compile_units([src], os.path.join(d, 'pc15'), includes=[])
+    ll = os.path.join(d, 'pc15.ll')
+    build.link_ll(bcs, ll)
+    mod = irparse.parse_module(open(ll).read(), ll)
+    facts = rules.analyse_module(mod)
+    found, st = rules.address_value_sites(mod, facts)
+    hit = set(f[0] for f in found)
+    missing = [n for n in MUST_FLAG if n not in hit]
+    if missing:
+        raise Broken('C15 positive control: the address-to-value rule no longer flags %s in fixtures/c15_positive.c' % missing)
+    extra = [n for n in MUST_PASS if n in hit]
+    if extra:
+        raise Broken('C15 positive control: the address-to-value rule flags the accepted idiom(s) %s (false alarm)' % extra)
+    return len(found)
+
+
 def main(tier, seed):
     from ..ctx import run_all_configs
     res = Result('C15', tier, 'proof', seed)
+    res.count('positive-control flows flagged in fixtures/c15_positive.c', positive_control())
     return run_all_configs(run, tier, res)
